@@ -141,6 +141,7 @@ class Model:
         self.by_sid = {}       # registry target id -> sub-circuit node
         self.live_parent = {}  # id(live-nested circuit) -> the circuit it sits in
         self.consumed = set()  # handle names of live-nested circuits
+        self.bound = set()     # handle names of circuits constructed with a relation to an operation of another circuit
         self._ambiguous_roots = set()   # structures whose relation structure can no longer be followed exactly
         self.ambiguous = _AmbiguousView(self)
 
@@ -202,12 +203,17 @@ class Model:
         return self._sid
 
     # ------------------------------------------------------------------ construction
-    def new(self, name, reps):
+    def new(self, name, reps, rel=None):
         root = Node("COMP")
         root.members = []
+        if rel is not None:
+            # constructed with a relation to entry k of another circuit: not the shared default link
+            rt, parent, k = rel
+            root.rel = (rt, self.entries[parent][k])
+            self.bound.add(name)
         root.reps = ("fixed", reps["fixed"]) if "fixed" in reps else ("reg", reps["reg"][0], reps["reg"][1])
         root.sid = self.new_sid(root)
-        root.deflink = True
+        root.deflink = rel is None
         self.roots[name] = root
         self.entries[name] = []
         self.hkind[name] = "decl"
@@ -332,7 +338,7 @@ class Model:
             if root.rel_known:
                 sharing, adm = self.admissible(root, n.ch)
                 if not sharing:
-                    if impl.get("ref_key") is not None and impl.get("checked", True) and not self.inherited_ok(self.chain_of(root)[:-1], impl):
+                    if impl.get("ref_key") is not None and impl.get("checked", True) and not self.inherited_ok(self.chain_of(root), impl):
                         verdict = {"ok": False, "why": "first on its channels but linked to an operation",
                                    "got": [impl["rt"], impl.get("ref_label")]}
                     n.rel = None
@@ -389,7 +395,7 @@ class Model:
         if block.rel_known:
             sharing, adm = self.admissible(block, n.ch)
             if not sharing:
-                if impl.get("ref_key") is not None and impl.get("checked", True) and not self.inherited_ok([block] + self.chain_of(root)[:-1], impl):
+                if impl.get("ref_key") is not None and impl.get("checked", True) and not self.inherited_ok([block] + self.chain_of(root), impl):
                     verdict = {"ok": False, "why": "first on its channels in the nested block but linked to an operation", "got": [impl["rt"], impl.get("ref_label")]}
                 n.rel = None
             else:
@@ -571,7 +577,7 @@ class Model:
         sharing, adm = verdict["sharing"], verdict["adm"]
         out = {"ok": True}
         if not sharing:
-            if impl.get("ref_key") is not None:
+            if impl.get("ref_key") is not None and not self.inherited_ok(self.chain_of(root), impl):
                 out = {"ok": False, "why": "sub-circuit first on its channels but linked to an operation"}
             return out
         chosen = self.find_by_key(root, impl.get("ref_key")) if impl.get("ref_key") is not None else None
@@ -621,6 +627,8 @@ class Model:
         return c
 
     def alias(self, name, as_name):
+        if name in self.bound:
+            self.bound.add(as_name)
         self.roots[as_name] = self.roots[name]
         self.entries[as_name] = self.entries[name]
         self.hkind[as_name] = self.hkind[name]
